@@ -474,6 +474,42 @@ class World:
         t = self.loop.create_task(go())
         self.user_tasks.append(t)
 
+    def op_user_second_socket(self, step) -> None:
+        """Socket mode: a second AirTouchSocket of the same generation in the same process (another console, or the same one
+        opened twice), with its own simulated network and a passive console. It shares the process-level message registry
+        with the socket under observation; nothing it receives is recorded."""
+        import pyairtouch.comms.socket as ps
+        from sim.trace import Trace
+
+        host2 = "10.0.0.2"
+        tr2 = Trace(self.loop)
+        net2 = SimNet(self.loop, tr2)
+        self.loop.net = self.net
+        net2.latency = 0.0
+        net2.segment = lambda data: [data]
+        console2 = refconsole.Console(net2, refconsole.default_installation(self.gen), tr2)
+        console2.silent = True
+        console2.apply_controls = False
+        net2.listen(host2, self.port, console2)
+        if not hasattr(self.loop, "nets_by_host"):
+            self.loop.nets_by_host = {}
+        self.loop.nets_by_host[host2] = net2
+        sock2 = ps.AirTouchSocket(self.loop, host2, self.port, self.registry)
+        self.second = (sock2, net2, console2)
+        self.trace.add("user.second_socket")
+        t = self.loop.create_task(sock2.open_socket())
+        self.user_tasks.append(t)
+
+    def op_console2_raw(self, step) -> None:
+        """Bytes from the second socket's console (see user.second_socket)."""
+        second = getattr(self, "second", None)
+        link = second[2].current_link() if second else None
+        if link is None:
+            self.trace.add("console2.raw_skipped")
+            return
+        self.trace.add("console2.raw", n=len(step["hex"]) // 2)
+        link.send(bytes.fromhex(step["hex"]))
+
     def op_user_subscribe(self, step) -> None:
         name = step["name"]
         sub = self.subs.get(name)
